@@ -7,7 +7,10 @@ ATOMS = ['a: b', '# x', '- y', "it's", '"q"', '| lit', '> fold', 'yes', 'no', 'n
          '!!str', '&', '*', '%YAML', '@', '`', 'a:b', 'a :b', 'x #', '#', "''", '""', 'tab\there', 'é: è', '日本: 語',
          'statechart', 'name', 'root state', 'states', 'transitions', 'None', 'True', 'False', 'ẞtraße', '·', '\u00a0x',
          'x\u00a0', '\u200bzero', 'ｆｕｌｌ', 'ǅ', 'a\u0301', '🙂👍🏽', '<a&b>', '$HOME', '~user', 'C:\\path', '/etc/passwd', 'a=b',
-         'a|b', 'a>b', 'a?b', 'a*b', 'a!b', 'a%b', 'a@b', 'a`b', '?x: y', '? ', ': ', '-x', '- - a', '-: -']
+         'a|b', 'a>b', 'a?b', 'a*b', 'a!b', 'a%b', 'a@b', 'a`b', '?x: y', '? ', ': ', '-x', '- - a', '-: -',
+         # characters that YAML (1.1 or 1.2) treats as line breaks or may not write verbatim
+         'nel\x85x', 'ls\u2028x', 'ps\u2029x', 'c1\x80\x9f', 'bom\ufeffx', 'del\x7f', 'esc\x1b[0m', 'cr\rx', 'non\ufffe', 'a\x85\x85b',
+         'nul\x00x', 'bell\x07']
 
 WORDS = ['état', 'extérieure', 'porte', 'fenêtre', 'naïve', 'coöperate', 'façade', 'mañana', 'Zürich', 'smörgåsbord', '日本語',
          'данные', 'ελληνικά', 'x', 'value', 'counter', 'the', 'door', 'is', 'open', 'closed', '😀', 'température', 'überprüfung',
@@ -16,7 +19,8 @@ WORDS = ['état', 'extérieure', 'porte', 'fenêtre', 'naïve', 'coöperate', 'f
 
 MULTILINE = ["multi\nline", "x = 1\nif x:\n    y = 2", "a\n\nb", "first: line\nsecond # line\n- third", "x = 1\n\n\ny = 2",
              "if a:\n\tb()\nelse:\n    c()", "line1\n  indented\n    more\nback", "# comment only\nx = 2", "a:\n  - b\n  - c",
-             "'''doc'''\nx = 1", 'text with "dq" and \'sq\'\nsecond', "é\nè\nê", "| not\n> block", "trailing colon:\nnext"]
+             "'''doc'''\nx = 1", 'text with "dq" and \'sq\'\nsecond', "é\nè\nê", "| not\n> block", "trailing colon:\nnext",
+             "nel\x85in\nmulti", "c1\x90\nnext", "ls\u2028\nps\u2029", "cr\r\nlf", "x\ufffe\ny", "trail \nspace", "tab\t\nend", "a\x1b\nb"]
 
 
 def sentence(rnd, lo=60, hi=220):
